@@ -25,7 +25,7 @@ Definition ME := "multiEndpoint.RWMutex".
 Definition CS := "gcpClientStream.Mutex".
 Definition GP := "gcpPicker.mu".
 
-Definition cfg_writers := ["(*gcpBalancer).initializeConfig"].
+Definition cfg_writers := ["gcpBalancer.initializeConfig"].
 
 Definition policy_table : list (string * string * policy) := [
   (* gcpBalancer *)
